@@ -1,4 +1,5 @@
 \* heads (v8) as coded, every schedule
+\* measured (8 TLC workers shared over 3 runs): 66937 distinct / 196087 generated states, depth 24, 17.1s
 CONSTANTS NSubs = 1 NConn = 1 InitLen = 2 MaxLen = 4 MaxTag = 4 MaxReverts = 1 MaxL1 = 0 MaxPc = 0 MaxTx = 1 MaxGw = 0 MaxRecv = 0 MaxTicks = 0 MaxBack = 3 MaxGot = 6
   Ver = 8 Kinds <- KHeads StartAtL1 <- NoL1 NoLag = FALSE QuietSub = FALSE ReorgPrio = FALSE TeeStage = TRUE Window = TRUE FixL1None = FALSE FixL1Order = FALSE BlockIds <- BidsMed
 INIT Init
